@@ -1,7 +1,9 @@
 """C02 -- every file written is a well-formed, independently readable HDF4 file.
 R = files written by the real library (harness/drive_fmt.c) and what its own read calls / raw-location queries
 return; S = coq/FmtSpec.v extracted to OCaml (h4read, extract/fmt_main.ml) applied to the bytes of the same
-files; M = coq/FmtModel.v (the writers' encoders and the HLgetdatainfo loop) compared with R at function level."""
+files; M = coq/FmtModel.v (the writers' encoders and the HLgetdatainfo loop) compared with R at function level:
+every DD block, description record, block table, Vdata header and Vgroup the library wrote is parsed by S,
+re-encoded by M and must give the library's bytes back; M's HLgetdatainfo must give the library's answers."""
 import os
 import re
 import shutil
@@ -10,6 +12,7 @@ import vcommon as vc
 RULE = ("histories of 1-3 sessions (H/V level, SD, GR) on one file, 4-14 building operations per session drawn from "
         "one PRNG (VERIF_SEED): Hputelement, HLcreate with 1-4 writes (block lengths 1..9, table sizes 1..4), appends "
         "that promote an element to linked blocks, HXcreate, HCcreate (none/RLE/n-bit/skipping-Huffman/deflate), "
+        "linked blocks written at positions (rewrites, seeks past the end that leave never-written blocks), "
         "HMCcreate (1-3 dims, partial last chunks, unwritten chunks, optional RLE/deflate), Hdupdd, Hdeldd, Vdata "
         "create/append/attributes, Vgroups with members and attributes, annotations, Hsync+flush snapshots; SDS "
         "contiguous / chunked / compressed / unlimited with block size; GR images plain / compressed / chunked; ndds in "
@@ -18,13 +21,17 @@ RULE = ("histories of 1-3 sessions (H/V level, SD, GR) on one file, 4-14 buildin
         "arrays under ASan.  A history is non-trivial when its file holds >= 1 special element or Vdata/Vgroup and all "
         "dump lines were compared; distinct by operation text")
 TRUSTED = ["Coq 8.16.1 kernel", "extraction (ExtrOcamlBasic only; Z/positive/nat inductive)",
-           "OCaml driver extract/fmt_main.ml (h4read), extract/fmtmodel_main.ml; C harnesses harness/drive_fmt.c, "
-           "harness/drive_fmtcodec.c; generator and comparison in checks/C02.py",
+           "OCaml driver extract/fmt_main.ml (h4read; also runs the model's encoders and the HLgetdatainfo model); C "
+           "harness harness/drive_fmt.c (dump in a fresh process per file); generator and comparison in checks/C02.py",
            "translator gen_consts.py + plugin gen/plugins/fmt_codec.py (constants, BASETAG/SPECIALTAG macros, the "
            "ENCODE/DECODE statement macros, order of encode calls in the record writers)",
            "zlib: deflate streams are inflated by python3's zlib module on h4read's behalf",
            "n-bit and skipping-Huffman streams are not decoded by h4read (structure only; decoded content is C05's)",
            "SD/GR convention layer: only the NDG -> SD data and RI-vgroup -> RI links are interpreted by h4read"]
+EXPLANATION = ("C02 claims DD level + special elements + Vdata/Vgroup records in full; of the SD/GR convention layer "
+               "h4read interprets only the NDG -> SD-data and RI-vgroup -> RI links (enough to compare SDreaddata / "
+               "GRreadimage / SDgetdatainfo / GRgetdatainfo with the bytes); dimension / attribute conventions are "
+               "checked only as the Vdatas and Vgroups they are stored in")
 ASSUMPTIONS = ["files are produced by this suite's generators; sizes < 2^31 (C20)",
                "the file is not modified between the library's close and h4read's read",
                "JPEG / IMCOMP / szip are outside the equality claim",
@@ -538,7 +545,8 @@ def compare(h, R, per_s):
 
 
 def classify(h, bad):
-    """signature of a failing history for known-finding matching (computed from the failing input and the failure)"""
+    """signature of a failing history for known-finding matching (computed from the failing input and the failure).
+    No finding of C02 is left unrepaired (known_findings.d/C02.json lists only fixed defects), so nothing matches."""
     return None
 
 
@@ -585,7 +593,7 @@ def run(ctx):
     cdir = os.path.join(vc.VERIF, "corpus", "C02")
     for fn in sorted(os.listdir(cdir)) if os.path.isdir(cdir) else []:
         corpus += split_histories([l for l in open(os.path.join(cdir, fn)).read().splitlines() if l.strip() and not l.startswith("#")])
-    nh = 120 if ctx.tier == "quick" else 2500
+    nh = 100 if ctx.tier == "quick" else 2500
     hists = corpus + [gen_history(r, "g%d" % i) for i in range(nh)]
     wd, rc, per, asan = run_R(ctx, hists, "main")
     rcs, per_s = run_S(ctx, wd, hists, per)
@@ -636,12 +644,12 @@ def run(ctx):
                   ["#   [%s] %s" % b for b in fb[:8]] + ["#   asan: " + a for a in asan2 if "ERROR" in a or "SUMMARY" in a][:4]
             ctx.violation("%s: %s" % fb[0], "\n".join(txt), found=True)
     shutil.rmtree(wd, ignore_errors=True)
-    ctx.corr("library~h4read", histories=len(hists), corpus_histories=len(corpus), op_mix=opmix, compared=tot,
+    ctx.corr("library~h4read", histories=len(hists), corpus_histories=len(corpus), op_mix=opmix,
+             compared={k: v for k, v in tot.items() if k not in ("RE", "DM")},
              histories_matching_known_findings=known, harness_rc=rc, **opfail)
-    try:
-        run_model_corr(ctx)
-    except NameError:
-        pass
+    ctx.corr("library~FmtModel", records_reencoded=tot.get("RE", 0), hlgetdatainfo_answers=tot.get("DM", 0),
+             what="RE: DD blocks, description records, block tables, VH, VG parsed by S and re-encoded by M equal the "
+                  "library's bytes; DM: M's HLgetdatainfo equals the library's return value and arrays")
 
 
 def replay(ctx, path):
